@@ -71,29 +71,26 @@ func (parser *Parser) nextLineBytes() ([]byte, error) {
 
 // get next bulk message bytes of length num.
 func (parser *Parser) nextLengthBytes(num int) ([]byte, error) {
-	n := num + 2 // + crlf
-	buf := make([]byte, n)
-	totalRead := 0
-	for totalRead < n {
-		read, err := parser.reader.Read(buf[totalRead:])
-		if err != nil {
-			if err == io.EOF {
-				if totalRead+read < n {
-					return nil, fmt.Errorf(errorInvalidBulkStringLength, totalRead+read, num)
-				}
-				break
-			}
-			return nil, err
-		}
-		totalRead += read
+	if num < 0 || maxBulkLength < num {
+		return nil, fmt.Errorf(errorInvalidBulkStringLength, 0, num)
 	}
+	n := num + 2 // + crlf
+	// Reads incrementally so that the allocation follows the received bytes, not the declared length.
+	var readBuf bytes.Buffer
+	read, err := io.CopyN(&readBuf, parser.reader, int64(n))
+	if err != nil {
+		if errors.Is(err, io.EOF) {
+			return nil, fmt.Errorf(errorInvalidBulkStringLength, read, num)
+		}
+		return nil, err
+	}
+	buf := readBuf.Bytes()
 	if buf[num] != cr || buf[num+1] != lf {
 		return nil, fmt.Errorf(errorInvalidBulkStringDelim, buf[num:n])
 	}
 	return buf[0:num], nil
 }
 
-// nextBulkMessage gets a next bulk string bytes.
 func (parser *Parser) nextBulkMessage() (*Message, error) {
 	numBytes, err := parser.nextLineBytes()
 	if err != nil {
